@@ -299,4 +299,4 @@ class SubsequenceSearch:
         #     return [SSMatch(best_idx, self) for best_idx in best_idxs[:k]]
         # distances = reversed(sorted(self.h))
         # return [SSMatch(best_idx, self) for dist, best_idx in distances]
-        return SSMatches(self)
+        return SSMatches(self, k=k)
